@@ -24,7 +24,7 @@ import LdkModel.Generated.OnionBlinded
          wire lengths / SHA-256 digests of the final packet and attribution data / decoded hop, code, data digest, hold times
      fwdfail <intro|inside|none> <ss> reason <code> <data> | fwdfail <…> <ss> down <pkt> <attr|none> <hold>
          → pkt <packet> <attribution data> | malformed <code> <sha256_of_onion>     (GENERATED getHtlcForwardFailure)
-     faildecodeb <num_blinded_hops> <u> <n> <ss>* <pkt>  → within <loop index> | attributed k code data | …
+     faildecodeb <num_blinded_hops> <u> <n> <show hop 0|1> <ss>* <pkt>  → within <loop index> | attributed k code data | …
          the sender's loop for a path whose first u hops have a RouteHop and the rest are blinded (GENERATED decodeFailureB)
      payload <variant> <nf> (<field> <hex|none>)* <nt> (<type> <hex>)*   → <serialized payload> inc=<0|1>
          the GENERATED encoder of that payload kind (Generated/OnionPayloads.lean) on the serialized field values and the
@@ -257,12 +257,13 @@ def c14 : Drv where
         match getHtlcForwardFailure ldk bf e (failKeysXOfSecret (unhex ss)) with
         | .failHtlc p => ((), s!"pkt {hex p.data} {showAttr p.attr}")
         | .failMalformed c sha => ((), s!"malformed {c} {hex sha}")
-    | "faildecodeb" :: nb :: u :: n :: rest =>
+    | "faildecodeb" :: nb :: u :: n :: showHop :: rest =>
       if rest.length ≠ nat! n + 1 then ((), "bad-op") else
       let keys := (rest.take (nat! n)).map fun ss => failKeysOfSecret (unhex ss)
       let hops := pathHops (keys.take (nat! u)) (keys.drop (nat! u))
       match decodeFailureB ldk (nat! nb) hops (unhex (rest.getLast?.getD "-")) with
       | .withinBlindedPath i => ((), s!"within {i}")
+      | .plain (.attributed h c d) => ((), if showHop == "1" then showFail (.attributed h c d) else s!"attributed ? {c} {hex d}")
       | .plain d => ((), showFail d)
     | "faildecode" :: n :: rest =>
       if rest.length ≠ nat! n + 1 then ((), "bad-op") else
